@@ -4,6 +4,7 @@ import BytesVerif.Judge.Buf
 import BytesVerif.Judge.Mut
 import BytesVerif.Judge.Seq
 import BytesVerif.Judge.Recycle
+import BytesVerif.Judge.Adv
 
 def main (args : List String) : IO UInt32 := do
   match args with
@@ -15,6 +16,7 @@ def main (args : List String) : IO UInt32 := do
   | ["buf", "debug"] => BytesVerif.Judge.BufJ.run false
   | ["buf", "release"] => BytesVerif.Judge.BufJ.run true
   | ["recycle"] => BytesVerif.Judge.RecJ.run
+  | ["adv"] => BytesVerif.Judge.AdvJ.run
   | ["seq"] => BytesVerif.Judge.SeqJ.run
   | ["mut"] => BytesVerif.Judge.MutJ.run
   | ["cert-c11"] => BytesVerif.Judge.MutJ.certSearch
